@@ -37,6 +37,10 @@ def templates():
     T["triple_nest"] = (3, lambda n: reduce_("add", binary("mul", L("x", n[0], n[1], carrier="nonneg"), reduce_("max", binary("add", L("y", n[1], n[2]), reduce_("add", L("z", n[2], n[0]), ((n[2], 2),))), ((n[1], 2),))), ((n[0], 2),)))
     T["independent"] = (3, lambda n: _indep(n))
     T["reduce_unrelated_bound"] = (3, lambda n: binary("add", reduce_("add", L("x", n[0]), ((n[1], 2),)), L("y", n[1], n[2])))
+    T["double_reduce_subs"] = (3, lambda n: subs(reduce_("add", reduce_("add", binary("mul", L("x", n[0], n[1], n[2]), var("zv", ("real", ()))), ((n[0], 2),)), ((n[1], 2),)),
+                                              (("zv", L("y", n[0])),)))
+    T["double_reduce_subs2"] = (3, lambda n: subs(reduce_("add", reduce_("add", binary("mul", L("x", n[0], n[1]), var("zv", ("real", ()))), ((n[0], 2),)), ((n[1], 2),)),
+                                               (("zv", L("y", n[2])),)))
     T["logaddexp_nest"] = (3, lambda n: reduce_("logaddexp", binary("add", L("x", n[0], n[1], carrier="log"), reduce_("logaddexp", L("y", n[1], n[2], carrier="log"), ((n[1], 2),))), ((n[0], 2),)))
     return T
 
